@@ -188,6 +188,10 @@ func Basket() Spec {
 		fix(Take(B, "eco.uC.LEG", "500000", false)),
 		// the curator changes hands (the basket row is rewritten) while the basket holds credits
 		fix(Msg("UpdateCurator(A,NCT->B)", &baskettypes.MsgUpdateCurator{Curator: A.String(), Denom: NCT, NewCurator: B.String()})),
+		// the criteria of a basket that HOLDS credits are tightened past the start date of a batch it holds (criteria gate
+		// new deposits only), and lifted again
+		fix(dateCrit("min=2021-01-01", NCT, G, &baskettypes.DateCriteria{MinStartDate: gts(date(2021, 1, 1))})),
+		fix(dateCrit("none", NCT, G, nil)),
 	}
 	return Spec{Name: "basket", Seeds: []explore.Seed{PreparedSeed("prepared"), FreshCoreBasketSeed()},
 		Events: append(good, bad...), DepthQuick: 5, DepthThor: 6, ExpectFail: expectFail(names(bad...)...), MinStates: 500}
@@ -309,6 +313,7 @@ func Market() Spec {
 		return ctx
 	}
 	bad = append(bad, Buy(L, "B0-half-by-locked-buyer", BuySpec{Seller: B, K: 0, Qty: "0.5", DAR: true, MaxFee: I64(100)}))
+	bad = append(bad, UpdateTwiceThenForeign(B, 0, C), UpdateTwiceThenForeign(C, 0, B))
 	// the seller buying its own order under another spelling of its address (upper-case bech32 is the same account)
 	bad = append(bad, E{Name: "BuyDirect(B-in-upper-case,own-order)", Make: func(pre *chain.Snapshot) *explore.Action {
 		id, ok := OrderSel(pre, B, 0)
@@ -408,8 +413,26 @@ func Large() Spec {
 		fix(Cancel(C, B1, Eps)),
 		fix(Send(C, B, B1, "0", Eps)),
 	}
-	return Spec{Name: "large", Seeds: []explore.Seed{PreparedSeed("prepared")},
-		Events: good, DepthQuick: 5, DepthThor: 6, MinStates: 200}
+	// a second seed: a batch whose issuance gives C a RETIRED balance of 35 significant digits (an issuance is written as it
+	// stands), credits of that batch on sale with and without auto-retire, some in an auto-retiring basket: every way in
+	// which ANOTHER sub-module adds to that retired balance must add exactly
+	lb := "C01-001-20220101-20230101-003"
+	seed2 := PreparedSeed("prepared+35-digit-retired-balance",
+		CreateBatch(A, "C01-001", date(2022, 1, 1), date(2023, 1, 1), true, nil, Iss(C, "1", Big35b), Iss(B, "4", "0")),
+		SellN(B, "auto-retire+plain", SO(lb, "1", coin("uregen", 1), false, nil), SO(lb, "1", coin("uregen", 1), true, nil)),
+		Put(B, RCT, BC(lb, "1")),
+		BankSend("BankSend(B->C,1000000RCT)", B, C, coin(RCT, 1000000)),
+	)
+	seed2.Name = "prepared+35-digit-retired-balance"
+	good = append(good,
+		Buy(C, "B-auto-retire-order", BuySpec{Seller: B, K: 2, Qty: Eps, MaxFee: I64(100)}),
+		Buy(C, "B-plain-order", BuySpec{Seller: B, K: 3, Qty: Eps, DAR: true, MaxFee: I64(100)}),
+		fix(Take(C, RCT, "1", true)),
+		fix(Retire(C, lb, Eps)),
+		fix(Send(B, C, lb, "0", Eps)),
+	)
+	return Spec{Name: "large", Seeds: []explore.Seed{PreparedSeed("prepared"), seed2},
+		Events: good, DepthQuick: 4, DepthThor: 5, MinStates: 200}
 }
 
 // Expiry: orders with every expiry kind against block-time sequences (C12).
